@@ -1,5 +1,5 @@
 //@unit scope
-//@props C14 C15 C18 C17
+//@props C14 C15 C18 C17 C08 C10
 // U-scope: variable scopes are lexical. push_element/pop_element/set_var (src/context.rs) and the
 // four scoping generators (GroupElement, SpecsElement, VarElement in src/transform.rs,
 // ReuseElement in src/reuse.rs) are verified to leave the element stack, the height of the scope
